@@ -108,10 +108,58 @@ class AstModel(object):
                 attr = st.targets[0].attr
                 attrmap[attr] = self._init_value(owner, st.value, names)
                 continue
+            # super(X, self).__init__(a, b=c) / super().__init__(...)
+            if isinstance(st, ast.Expr) and isinstance(
+                    st.value, ast.Call) and isinstance(
+                    st.value.func, ast.Attribute) and \
+                    st.value.func.attr == '__init__' and isinstance(
+                    st.value.func.value, ast.Call) and isinstance(
+                    st.value.func.value.func, ast.Name) and \
+                    st.value.func.value.func.id == 'super':
+                inherited = self._super_init(owner, st.value, names)
+                for k, v in inherited.items():
+                    attrmap.setdefault(k, v)
+                continue
             raise AnalysisError(
                 '%s.__init__: unsupported statement %s' % (
                     owner, ast.unparse(st)))
         return params, attrmap
+
+    def _super_init(self, owner, call, names):
+        """attribute map contributed by a call of the base constructor"""
+        base_owner = base_init = None
+        for c in self.mro(owner)[1:]:
+            for st in self.classes[c].node.body:
+                if isinstance(st, ast.FunctionDef) and \
+                        st.name == '__init__':
+                    base_owner, base_init = c, st
+                    break
+            if base_init is not None:
+                break
+        if base_init is None:
+            raise AnalysisError('%s.__init__: no base constructor' % owner)
+        bparams, battr = self.init_model(base_owner)
+        bnames = [p[0] for p in bparams]
+        bound = {}
+        for n, a in zip(bnames, call.args):
+            bound[n] = a
+        for kw in call.keywords:
+            bound[kw.arg] = kw.value
+        out = {}
+        for attr, (kind, pname, n2l) in battr.items():
+            if kind != 'param':
+                out[attr] = (kind, pname, n2l)
+                continue
+            arg = bound.get(pname)
+            if isinstance(arg, ast.Name) and arg.id in names:
+                out[attr] = ('param', arg.id, n2l)
+            elif arg is None:
+                out[attr] = ('const', 'default', False)
+            else:
+                raise AnalysisError(
+                    '%s.__init__: unsupported argument %s to the base '
+                    'constructor' % (owner, ast.unparse(arg)))
+        return out
 
     def _init_value(self, owner, v, names):
         # param | param or [] | param if param is not None else []
